@@ -192,6 +192,96 @@ fn reaches_cycle(roots: &[StackObjectRef]) -> bool {
     false
 }
 
+/// The simulated object graph reachable from the stack and memo roots.
+pub struct HeapSnapshot {
+    /// reachable cells in first-visit order: (cell id, kind code, strongly referenced
+    /// cells, 1 + id of the callable cell of an instance or 0)
+    pub cells: Vec<(u32, u8, Vec<u32>, u32)>,
+    /// stack slots, bottom first
+    pub stack: Vec<u32>,
+    /// memo entries sorted by key
+    pub memo: Vec<(usize, u32)>,
+    /// a strong reference cycle is reachable from the roots
+    pub cycle: bool,
+}
+
+/// Names cells by small ids that stay the same across snapshots (every cell seen is
+/// kept alive, so an address is never reused while the tracker exists).
+#[derive(Default)]
+pub struct HeapTracker {
+    ids: HashMap<usize, u32>,
+    keep: Vec<StackObjectRef>,
+}
+
+impl HeapTracker {
+    fn id_of(&mut self, c: &StackObjectRef) -> (u32, bool) {
+        let key = Rc::as_ptr(&c.0) as *const () as usize;
+        if let Some(i) = self.ids.get(&key) {
+            return (*i, false);
+        }
+        let i = self.ids.len() as u32;
+        self.ids.insert(key, i);
+        self.keep.push(c.clone());
+        (i, true)
+    }
+
+    /// Walk the Rc graph from the generator's roots.
+    pub fn snapshot(&mut self, gen: &Generator) -> HeapSnapshot {
+        fn children(obj: &StackObject) -> Vec<StackObjectRef> {
+            match obj {
+                StackObject::List(v) | StackObject::Tuple(v) => v.clone(),
+                StackObject::Dict(m) => m.iter().flat_map(|(k, v)| [k.clone(), v.clone()]).collect(),
+                StackObject::Set(s) | StackObject::FrozenSet(s) => s.iter().cloned().collect(),
+                StackObject::Instance(i) => vec![i.callable.clone(), i.args.clone()],
+                StackObject::Callable(c) => vec![c.clone()],
+                _ => Vec::new(),
+            }
+        }
+        let mut roots: Vec<StackObjectRef> = gen.state.stack.inner.to_vec();
+        let stack: Vec<u32> = roots.iter().map(|c| self.id_of(c).0).collect();
+        let mut keys: Vec<usize> = gen.state.memo.keys().copied().collect();
+        keys.sort_unstable();
+        let mut memo = Vec::new();
+        for k in keys {
+            let c = gen.state.memo[&k].clone();
+            memo.push((k, self.id_of(&c).0));
+            roots.push(c);
+        }
+        let mut cells = Vec::new();
+        let mut visited: std::collections::HashSet<u32> = std::collections::HashSet::new();
+        let mut work: Vec<StackObjectRef> = roots.iter().rev().cloned().collect();
+        while let Some(c) = work.pop() {
+            let me = self.id_of(&c).0;
+            if !visited.insert(me) {
+                continue;
+            }
+            let ch = children(&c.borrow());
+            let mut kids: Vec<u32> = ch.iter().map(|k| self.id_of(k).0).collect();
+            kids.sort_unstable();
+            kids.dedup();
+            let cal = match &*c.borrow() {
+                StackObject::Instance(i) => 1 + self.id_of(&i.callable).0,
+                _ => 0,
+            };
+            cells.push((me, kind_code(&c.borrow()), kids, cal));
+            for k in ch.into_iter().rev() {
+                work.push(k);
+            }
+        }
+        HeapSnapshot {
+            cells,
+            stack,
+            memo,
+            cycle: reaches_cycle(&roots),
+        }
+    }
+}
+
+/// One-off snapshot with ids in first-visit order.
+pub fn heap_snapshot(gen: &Generator) -> HeapSnapshot {
+    HeapTracker::default().snapshot(gen)
+}
+
 /// Record one step. Called by the generator after the state change of the step.
 pub(crate) fn record(gen: &Generator, phase: &'static str, op: Option<OpcodeKind>) {
     record_with(gen, phase, op, None)
